@@ -1121,16 +1121,47 @@ class APath(_pathlib.PurePosixPath, Abstract):
     the absolute, normalised paths the rules use"""
 
     ALIASES: Dict[str, str] = {}  # other spellings of directories (symbolic links, relative forms): alias prefix -> real prefix
+    FS: List[str] = []  # the files of the abstract file system (absolute, normalised), set by the rule that needs listings
+    CWD: Optional[str] = None  # the working directory, for the rules that speak about relative paths (None: every path the rule uses is absolute)
+    STRICT: bool = False  # with a working directory set: exists() / is_dir() / resolve(strict=True) answer from FS
+
+    def _abs(self) -> str:
+        """the absolute, normalised spelling of this path (relative ones are relative to the working directory)"""
+        s_ = str(self)
+        if not s_.startswith("/"):
+            s_ = (APath.CWD or "") + "/" + s_
+        out: List[str] = []
+        for part in s_.split("/"):
+            if part in ("", "."):
+                continue
+            if part == "..":
+                if out:
+                    out.pop()
+                continue
+            out.append(part)
+        return "/" + "/".join(out)
+
+    def _present(self, p_: str) -> bool:
+        return p_ in APath.FS or any(f_.startswith(p_.rstrip("/") + "/") for f_ in APath.FS) or p_ == "/"
 
     def resolve(self, strict: bool = False) -> "APath":
-        me = str(self)
+        me = self._abs() if APath.CWD is not None else str(self)
         for alias, real in APath.ALIASES.items():
             if me == alias or me.startswith(alias.rstrip("/") + "/"):
-                return APath(real + me[len(alias):])
-        return self
+                me = real + me[len(alias):]
+                break
+        if strict and APath.STRICT and not self._present(me):
+            raise FileNotFoundError(me)
+        return self if me == str(self) else APath(me)
 
     def absolute(self) -> "APath":
-        return self
+        return APath(self._abs()) if APath.CWD is not None else self
+
+    @classmethod
+    def cwd(cls) -> "APath":
+        if APath.CWD is None:
+            raise Unfoldable("the working directory is not part of this rule's world")
+        return APath(APath.CWD)
 
     def expanduser(self) -> "APath":
         return self
@@ -1139,30 +1170,38 @@ class APath(_pathlib.PurePosixPath, Abstract):
         o = other.resolve() if isinstance(other, APath) else APath(str(other)).resolve()
         return _pathlib.PurePosixPath(str(self.resolve())) == _pathlib.PurePosixPath(str(o))
 
-    FS: List[str] = []  # the files of the abstract file system (absolute, normalised), set by the rule that needs listings
-
     def exists(self) -> bool:
+        if APath.STRICT:
+            return self._present(str(self.resolve()))
         return True  # the rules speak about paths that exist
 
     def is_dir(self) -> bool:
+        if APath.STRICT:
+            p_ = str(self.resolve())
+            return p_ not in APath.FS and self._present(p_)
         return not str(self).rsplit("/", 1)[-1].count(".")
+
+    def _listing(self, pattern: str, deep: bool) -> List["APath"]:
+        import fnmatch
+
+        # (listed by the spelling given: an alias that was not resolved finds nothing; a relative path lists relative to the
+        # working directory and yields paths of the same spelling)
+        given = str(self).rstrip("/")
+        base = (self._abs() if APath.CWD is not None else str(self)).rstrip("/") + "/"
+        hits = [f_ for f_ in APath.FS if f_.startswith(base) and (deep or "/" not in f_[len(base):]) and fnmatch.fnmatchcase(f_.rsplit("/", 1)[-1], pattern)]
+        # deliberately not sorted by name: reversed, so that code relying on the listing order is exposed
+        return [APath((given + "/" if given != "." else "") + h[len(base):]) if not str(self).startswith("/") else APath(h) for h in reversed(hits)]
 
     def rglob(self, pattern: str) -> List["APath"]:
         """every file at any depth under this directory whose name matches the pattern - in an order the caller may not rely on"""
-        import fnmatch
-
-        me = str(self).rstrip("/") + "/"  # (listed by the spelling given: an alias that was not resolved finds nothing)
-        hits = [f_ for f_ in APath.FS if f_.startswith(me) and fnmatch.fnmatchcase(f_.rsplit("/", 1)[-1], pattern)]
-        # deliberately not sorted by name: reversed, so that code relying on the listing order is exposed
-        return [APath(h) for h in reversed(hits)]
+        return self._listing(pattern, True)
 
     def glob(self, pattern: str) -> List["APath"]:
-        import fnmatch
-
-        me = str(self).rstrip("/") + "/"
-        return [APath(f_) for f_ in reversed(APath.FS) if f_.startswith(me) and "/" not in f_[len(me):] and fnmatch.fnmatchcase(f_[len(me):], pattern)]
+        return self._listing(pattern, False)
 
     def is_file(self) -> bool:
+        if APath.STRICT:
+            return str(self.resolve()) in APath.FS
         return True
 
 
